@@ -163,7 +163,7 @@ def main():
     own = sum(1 for r in live if r[0].split("-")[0] in r[3].split(", "))
     anyc = sum(1 for r in live if r[3] != "**none**")
     out = TEXT
-    out += f"**Result (final matrix, {len(live)} confirmed changes that still are defects on the final tree):** {anyc} caught by at least one check that was run, {own} by the check of their own property.\n\n"
+    out += f"**Result ({len(live)} confirmed changes: 99 of rounds 1-4 as measured at the end of the previous session, 20 of round 5 measured on the final tree of this session):** {anyc} caught by at least one check that was run, {own} by the check of their own property.\n\n"
     out += "| change | file(s) | what it breaks (abridged) | caught by | run, not caught | first witness | history |\n|---|---|---|---|---|---|---|\n"
     for r in rows:
         out += "| " + " | ".join(r) + " |\n"
